@@ -21,6 +21,20 @@ class Quiescent(Exception):
     """The loop has nothing ready and no timer: a deterministic hang."""
 
 
+class Livelock(Exception):
+    """The loop keeps running ready callbacks without ever going idle: some task spins at one
+    virtual instant (e.g. a read loop that keeps hitting end-of-stream)."""
+
+
+LIVELOCK_ITERATIONS = 200_000
+_BUSY = None
+import os as _os
+if _os.environ.get("VF_BUSY"):
+    import atexit as _atexit
+    _BUSY = [0]
+    _atexit.register(lambda: open(_os.environ["VF_BUSY"], "a").write(f"{_BUSY[0]}\n"))
+
+
 class _VSel(selectors.BaseSelector):
     def __init__(self, loop):
         self.loop = loop
@@ -83,6 +97,7 @@ class SimLoop(asyncio.SelectorEventLoop):
         if net is not None:
             net.loop = self
         self.iteration = 0
+        self._idle_iteration = 0
         self.hooks = {}
         self.set_exception_handler(self._on_unhandled)
 
@@ -94,6 +109,7 @@ class SimLoop(asyncio.SelectorEventLoop):
         if timeout is None:
             raise Quiescent("no ready handles and no timers")
         if timeout > 0:
+            self._idle_iteration = self.iteration
             while self._scheduled and self._scheduled[0]._cancelled:
                 h = heapq.heappop(self._scheduled)
                 h._scheduled = False
@@ -105,6 +121,12 @@ class SimLoop(asyncio.SelectorEventLoop):
 
     def _run_once(self):
         self.iteration += 1
+        if _BUSY is not None and self.iteration - self._idle_iteration > _BUSY[0]:
+            _BUSY[0] = self.iteration - self._idle_iteration
+        if self.iteration - self._idle_iteration > LIVELOCK_ITERATIONS:
+            self._idle_iteration = self.iteration
+            raise Livelock(f"{LIVELOCK_ITERATIONS} loop iterations at virtual time "
+                           f"{self._vtime} without going idle")
         h = self.hooks.pop(self.iteration, None)
         if h is not None:
             h()
